@@ -19,13 +19,15 @@ RULE = ('multi-segment multi-chunk model files with several channels; non-trivia
         'other channels and has >=2 chunks; distinct = (per-segment signatures, channel)')
 ASSUMPTIONS = ['"constant number of bytes per segment touched" = the 4-byte segment tag the reader verifies before reading a segment',
                'an empty request may touch at most the one chunk containing its offset']
-REQUIRED = ['requests', 'reads_checked', 'cached_index_checked', 'bytes_allowed', 'requests_partial']
+REQUIRED = ['daqmx_files', 'requests', 'reads_checked', 'cached_index_checked', 'bytes_allowed', 'requests_partial']
 N = {'quick': 800, 'thorough': 15000}
 
 
 def gen_cases(tier, seed):
     for i in range(N[tier]):
         yield {'s': seed * 1000003 + i}
+    for i in range(N[tier] // 4):
+        yield {'s': seed * 1000003 + i, 'daqmx': True}
 
 
 def build(case):
@@ -67,7 +69,51 @@ def allowed_for(table, lay, a, b, empty_at=None):
     return regs, hit
 
 
+def daqmx_case(case, ctx):
+    """DAQmx layout: a request may touch the rows of the chunks overlapping it (all raw buffers of those chunks)."""
+    from nptdms import TdmsFile
+    from vlib import daqmx as D
+    rng = random.Random('c19d/%d' % case['s'])
+    f = D.gen_daqmx(rng, chunks=(2, 3, 4), max_segs=3)
+    blob, _, lay = f.encode()
+    cs = f.chunk_size
+    stream = TraceIO(blob)
+    tf = TdmsFile.open(stream)
+    ctx.count('daqmx_files')
+    try:
+        for ch in f.chans:
+            c = tf['G'][ch['name']]
+            n = len(c)
+            if n == 0 or cs == 0:
+                continue
+            ctx.evaluation()
+            table, pos = [], 0
+            for si, (seg, l) in enumerate(zip(f.segs, lay)):
+                for k in range(seg['nchunks']):
+                    table.append((si, pos, pos + ch['n'], (l['data_start'] + k * cs, cs)))
+                    pos += ch['n']
+            layx = type('L', (), {'segs': [{'start': l['start']} for l in lay]})()
+            if len(table) >= 2:
+                ctx.distinct(('daqmx', f.signature(), ch['name']))
+            wins = [(o, l_) for o in range(n + 1) for l_ in list(range(n + 2)) + [None]] if n <= 12 else \
+                [(rng.randrange(n + 1), rng.choice([None, 0, 1, rng.randrange(n + 1)])) for _ in range(80)]
+            for o, l_ in wins:
+                b = n if l_ is None else min(n, o + l_)
+                regs, hit = allowed_for(table, layx, o, b, empty_at=o)
+                mark = stream.mark()
+                c.read_data(o, l_, scaled=False)
+                judge(ctx, stream, mark, regs, 'window/daqmx', {'chan': ch['name'], 'offset': o, 'length': l_, 'n': n, 'file': f.describe()})
+                if hit and len(hit) < len(table):
+                    ctx.count('requests_partial')
+    except Exception as ex:
+        ctx.violation('raises/daqmx/%s' % util.exc_key(ex), {'exc': util.exc_detail(ex), 'file': f.describe()})
+    finally:
+        tf.close()
+
+
 def run_case(case, ctx):
+    if case.get('daqmx'):
+        return daqmx_case(case, ctx)
     from nptdms import TdmsFile
     segs, rng = build(case)
     blob, _, lay = M.encode_file(segs)
